@@ -170,6 +170,10 @@ class System:
         for i, (d, end, late) in enumerate(self.topo):
             ops += ['e%d:load' % i, 'e%d:force' % i, 'e%d:enforce' % i,
                     'e%d:edit' % i]
+            if d.startswith('M'):
+                # the constant main file is re-written with the very same
+                # content (a configuration-management run): new mtime only
+                ops.append('e%d:touch' % i)
             if self.silent_ops and self.content[d] is not None:
                 ops.append('e%d:sedit' % i)
             if self.delete_ops and self.content[d] is not None:
@@ -211,6 +215,8 @@ class System:
             for j, (dj, _, _) in enumerate(self.topo):
                 if dj == d:
                     self.stale_ok[j] = False
+        elif kind == 'touch':
+            self.w.touch('%s/policy.yaml' % d)
         elif kind == 'del':
             self.w.delete(rel_of(d))
             self.content[d] = None
@@ -254,6 +260,12 @@ class System:
             t = os.path.getmtime(self.w.path(rel_of(d)))
             files[d] = (cid, t)
             times.add(t)
+        for d in list(self.content):
+            if d.startswith('M'):
+                # the constant main file: its time is part of the state
+                t = os.path.getmtime(self.w.path('%s/policy.yaml' % d))
+                files[d + '/main'] = ('main', t)
+                times.add(t)
         fps = [c10.fingerprint(vars(e), self.w.root, times, skip=('conf',))
                for e in self.enfs]
         rank = {t: i for i, t in enumerate(sorted(times))}
